@@ -129,6 +129,11 @@ def programs(tier: str):
             for delay in ("none", "float", "fn"):
                 for mode in ("sync", "async"):
                     yield {"limit": limit, "catching": "class", "delay": delay, "mode": mode, "scoped": False, "forced": forced}
+    # a retried function calling another retried function (own budgets)
+    for la in (1, 2):
+        for lb in (1, 2):
+            for mode in ("sync", "async"):
+                yield {"nested": True, "limits": [la, lb], "mode": mode}
     for limit in BOUNDS[tier]["limits"][:2]:
         for a in itertools.product(("caught", "value"), repeat=limit + 1):
             for b in itertools.product(("caught", "value", "other"), repeat=limit + 1):
@@ -269,6 +274,92 @@ def _reuse(program, ch: Chooser) -> Result:  # noqa: C901, PLR0912, PLR0915
         loop.shutdown()
 
 
+def _nested(program, ch: Chooser) -> Result:
+    """a retried function that calls ANOTHER retried function: each keeps its own attempt budget
+    (outcomes of both chosen by the explorer)"""
+    viols: list[dict] = []
+    la, lb, mode = program["limits"][0], program["limits"][1], program["mode"]
+    vtime.reset()
+    acalls: list = []
+    bcalls: list = []
+
+    def decide(calls, limit, label):
+        k = len(calls) + 1
+        kind = "value" if k > limit + 2 else ("caught", "value", "other")[ch.choose(3, label)]
+        calls.append(kind)
+        if kind == "caught":
+            raise Caught(f"{label}#{k}")
+        if kind == "other":
+            raise Other(f"{label}#{k}")
+        return f"{label}-value"
+
+    got: dict = {}
+    loop = VLoop()
+    loop.open()
+    try:
+        if mode == "sync":
+
+            @retry(limit=lb, catching=Caught)
+            def inner():
+                return decide(bcalls, lb, "b")
+
+            @retry(limit=la, catching=Caught)
+            def outer():
+                try:
+                    inner_out = ("value", inner())
+                except Exception as exc:  # noqa: BLE001 - the outer function handles the inner failure itself
+                    inner_out = ("raised", type(exc).__name__)
+                got.setdefault("inner", []).append((inner_out, len(bcalls)))
+                bcalls.clear()
+                return decide(acalls, la, "a")
+
+            try:
+                got["out"] = ("value", outer())
+            except BaseException as exc:  # noqa: BLE001
+                got["out"] = ("raised", type(exc).__name__)
+        else:
+
+            @retry(limit=lb, catching=Caught)
+            async def ainner():
+                return decide(bcalls, lb, "b")
+
+            @retry(limit=la, catching=Caught)
+            async def aouter():
+                try:
+                    inner_out = ("value", await ainner())
+                except Exception as exc:  # noqa: BLE001
+                    inner_out = ("raised", type(exc).__name__)
+                got.setdefault("inner", []).append((inner_out, len(bcalls)))
+                bcalls.clear()
+                return decide(acalls, la, "a")
+
+            async def main():
+                try:
+                    got["out"] = ("value", await aouter())
+                except BaseException as exc:  # noqa: BLE001
+                    got["out"] = ("raised", type(exc).__name__)
+
+            task = loop.create_task(main())
+            loop.run_ready()
+            if not task.done():
+                viols.append(viol("termination", "nested", "call returns", "pending"))
+        # reference: the outer function is called until its first success / uncaught error / la + 1 calls
+        exp = 0
+        for kind in acalls:
+            exp += 1
+            if kind != "caught" or exp == la + 1:
+                break
+        if len(acalls) != exp:
+            viols.append(viol("attempts", f"nested/outer/limit={la}", f"{exp} calls for outcomes {acalls[:exp]}", f"{len(acalls)} calls {acalls}", inner=got.get("inner")))
+        elif acalls:
+            want = ("value", "a-value") if acalls[-1] == "value" else ("raised", "Caught" if acalls[-1] == "caught" else "Other")
+            if got.get("out") != want:
+                viols.append(viol("last-outcome", "nested/outer", list(want), list(got.get("out", ())), inner=got.get("inner")))
+        return Result(f"nested/{mode}/{len(acalls)}", True, viols[:3], {"outer": acalls, "inner": got.get("inner"), "out": got.get("out")})
+    finally:
+        loop.shutdown()
+
+
 def _concurrent(program, ch: Chooser) -> Result:
     from hv.vloop import Livelock
     from hv.world import World
@@ -361,6 +452,8 @@ def _make_exc(kind: str, k: int) -> BaseException:
 def execute(program, ch: Chooser) -> Result:  # noqa: C901, PLR0912, PLR0915
     if program.get("concurrent"):
         return _concurrent(program, ch)
+    if program.get("nested"):
+        return _nested(program, ch)
     if program.get("reuse"):
         return _reuse(program, ch)
     limit, catching, delay, mode, scoped = (
